@@ -11,8 +11,8 @@
    form = the space's own inner product, bounded self-adjoint pointwise
    multiplication): rn with any positive weighting, uniform_discr, product
    spaces are instances (Instances.v, Lists.v). *)
-From Coq Require Import Reals List Bool.
-From Verif Require Import Base.Num Base.Vec C09.Model C09.IPS C09.Proofs C09.Instances C09.Lists C09.Pointwise C09.Matrix C09.Product C09.Moreau C09.KL C09.Radial C09.NumGrad.
+From Coq Require Import QArith Qreals Reals List Bool.
+From Verif Require Import Base.Num Base.Vec C09.Model C09.IPS C09.Proofs C09.Instances C09.Lists C09.Pointwise C09.Matrix C09.Product C09.Moreau C09.KL C09.Radial C09.NumGrad C09.Transfer.
 Local Open Scope R_scope.
 
 (* T1 (gradient rules, all trees).  For every expression tree, of any depth and
@@ -289,6 +289,49 @@ Theorem numericalgradient_repaired : forall (w x : list R) (h : R) (i : nat),
   = nth i (gradient (FLeaf (leaf_l2sq (wspace sqrt w))) x) 0.
 Proof. exact numgrad_repaired. Qed.
 Print Assumptions numericalgradient_weighted_refuted.
+
+(* Nested scalings are flattened by the constructors into one object with the merged
+   scalar ((f*a)*b stores f and b*a): value, gradient and grad_lipschitz of the nested
+   tree equal those of the merged one -- in particular the constant is (|b||a|)^2 L_f. *)
+Theorem nested_argument_scaling_merges : forall (S : RSpace), SpaceLaws S ->
+  forall (f : Rexpr S) (a b : R) (x : car S),
+  value (FRightScal (FRightScal f a) b) x = value (FRightScal f (b * a)) x
+  /\ gradient (FRightScal (FRightScal f a) b) x = gradient (FRightScal f (b * a)) x
+  /\ lipschitz (FRightScal (FRightScal f a) b) = lipschitz (FRightScal f (b * a)).
+Proof. exact rscal_merge. Qed.
+Theorem nested_left_scaling_merges : forall (S : RSpace), SpaceLaws S ->
+  forall (f : Rexpr S) (a b : R) (x : car S),
+  value (FLeftScal b (FLeftScal a f)) x = value (FLeftScal (b * a) f) x
+  /\ gradient (FLeftScal b (FLeftScal a f)) x = gradient (FLeftScal (b * a) f) x
+  /\ lipschitz (FLeftScal b (FLeftScal a f)) = lipschitz (FLeftScal (b * a) f).
+Proof. exact lscal_merge. Qed.
+
+(* TRANSFER: what the shards execute at Q is the rational restriction of what is proved
+   at R.  For related trees (same shape; scalars related by Q2R, vectors by map Q2R,
+   leaves/operators related pointwise) over the executed space [wspace sQ w] and the proved
+   space [wspace sqrt (map Q2R w)], and no division by zero at Q: *)
+Theorem model_transfer : forall (sQ : Q -> Q) (w : list Q)
+  (eQ : fexpr (wspace sQ w)) (eR : fexpr (wspace sqrt (map Q2R w))), trel sQ w eQ eR ->
+  forall x d : list Q, divs_ok eQ x ->
+  Q2R (value eQ x) = value eR (map Q2R x)
+  /\ map Q2R (gradient eQ x) = gradient eR (map Q2R x)
+  /\ Q2R (derivative eQ x d) = derivative eR (map Q2R x) (map Q2R d)
+  /\ is_linear eQ = is_linear eR.
+Proof. exact model_transfer_all. Qed.
+Print Assumptions model_transfer.
+(* and the concrete leaves / operators are related to themselves (at Q2R of their parameters) *)
+Theorem huber_leaf_transfer : forall (sQ : Q -> Q) (w : list Q) (g : Q), (0 < g)%Q ->
+  leaf_rel sQ w (leaf_huber sQ w g) (leaf_huber sqrt (map Q2R w) (Q2R g)).
+Proof. exact leaf_huber_rel. Qed.
+Theorem l1_leaf_transfer : forall (sQ : Q -> Q) (w : list Q),
+  leaf_rel sQ w (leaf_l1 sQ w) (leaf_l1 sqrt (map Q2R w)).
+Proof. exact leaf_l1_rel. Qed.
+Theorem l2sq_leaf_transfer : forall (sQ : Q -> Q) (w : list Q),
+  leaf_rel sQ w (leaf_l2sq (wspace sQ w)) (leaf_l2sq (wspace sqrt (map Q2R w))).
+Proof. exact leaf_l2sq_rel. Qed.
+Theorem pointwise_product_operator_transfer : forall (sQ : Q -> Q) (w1 w2 : list Q) A AR B BR,
+  op_rel sQ w1 w2 A AR -> op_rel sQ w1 w2 B BR -> op_rel sQ w1 w2 (op_pwprod A B) (op_pwprod AR BR).
+Proof. exact op_pwprod_rel. Qed.
 
 (* Non-vacuity: rn(1, weighting=w) satisfies the laws for every w > 0, and a
    tree using all eleven constructors satisfies every premise at every point. *)
